@@ -143,6 +143,9 @@ def run(ctx):
     from ..initrules import rule_I1
     rule_I1(ctx, {'counter'})
     rule_T5(ctx)
+    # the success predicate reads the per-shell statistics: they are never stale
+    from ..pathrules import rule_T3
+    rule_T3(ctx)
     rule_T8i(ctx)
     # support: every evaluated point lies in the unit hypercube
     rule_M3(ctx)
